@@ -594,7 +594,7 @@ deriving DecidableEq, Repr, Inhabited
 
 /-- the measure: a frame without DADR is never forwarded; with DADR it can be
     forwarded `hop` more times -/
-def Npci.fuel (p : Npci) : Nat := if p.dadr.isSome then p.hop + 1 else 0
+def Npci.fuel (p : Npci) : Nat := if p.dadr.isSome then p.hop else 0
 
 /-- frames a node puts on LANs when it hears `f` on adapter `a` -/
 def emitted (t : TNode) (a : Adapter) (f : Packet) : List Packet :=
@@ -610,7 +610,7 @@ def delivered (t : TNode) (a : Adapter) (f : Packet) : List Delivery :=
 
 theorem fwdRemote_fuel (n : Node) (c : Cache) (arr : Adapter) (q : Npci) (d : Dadr) (dn : Nat)
     (a : Adapter) (l : Link) (r : Npci) (h : Out.send a l r ∈ fwdRemote n c arr q d dn) :
-    r.fuel ≤ q.hop + 1 := by
+    r.fuel ≤ q.hop := by
   unfold fwdRemote at h
   split at h
   · split at h
@@ -632,7 +632,7 @@ theorem fwdRemote_fuel (n : Node) (c : Cache) (arr : Adapter) (q : Npci) (d : Da
 
 theorem fwdCopies_fuel (n : Node) (c : Cache) (arr : Adapter) (q : Npci) (d : Dadr)
     (a : Adapter) (l : Link) (r : Npci) (h : Out.send a l r ∈ fwdCopies n c arr q d) :
-    r.fuel ≤ q.hop + 1 := by
+    r.fuel ≤ q.hop := by
   cases d with
   | gb =>
     simp only [fwdCopies, List.mem_map] at h
@@ -655,7 +655,7 @@ theorem forward_fuel (n : Node) (c : Cache) (arr : Adapter) (src : Mac) (p : Npc
   split at h
   · simp at h
   rename_i d hd
-  have hp : p.fuel = p.hop + 1 := by simp [Npci.fuel, hd]
+  have hp : p.fuel = p.hop := by simp [Npci.fuel, hd]
   have hh : p.hop ≠ 0 := by simpa using hhop
   split at h
   · simp at h
